@@ -1,5 +1,6 @@
 import LlgoVerif.Spec.GoArith
 import LlgoVerif.Model.Utf8
+import LlgoVerif.Model.SoftFloat
 /-!
 # CoreGo — a reference semantics for a typed core-Go fragment (property C01)
 
@@ -49,7 +50,7 @@ inductive Ty where
   | arr (n : Nat) (t : Ty)
   | func (sig : Nat)
   | rtErr                       -- the dynamic type of a run-time panic value (`runtime.Error`)
-  | float                       -- float64: only created, divided and compared (NaN); never printed
+  | float                       -- float64: created, + - * /, compared (NaN, ±0); never printed
 deriving DecidableEq, Repr, Inhabited
 
 inductive BinOp where
@@ -215,7 +216,7 @@ inductive Val where
   | iface (d : Option (Ty × Val))
   | bound (f : Nat) (recv : Val)                       -- method value: function id with its receiver
   | blank (v : Val)                                    -- content of a blank struct field
-  | float (f : Float)
+  | float (bits : Nat)                                 -- float64 as its IEEE-754 bit pattern (kernel-transparent: Model/SoftFloat.lean)
 deriving Repr, Inhabited
 
 /-- non-local completion of a statement -/
@@ -337,12 +338,19 @@ def setPath : Val → List Nat → Val → Option Val
       | none => none
     | none => none
 
+/-- IEEE-754 equality of two float64 bit patterns -/
+def f64Eq (a b : Nat) : Bool := SoftFloat.cmp SoftFloat.f64 a b == .eq
+
+def f64Lt (a b : Nat) : Bool := SoftFloat.cmp SoftFloat.f64 a b == .lt
+
+def f64Le (a b : Nat) : Bool := SoftFloat.cmp SoftFloat.f64 a b == .lt || SoftFloat.cmp SoftFloat.f64 a b == .eq
+
 mutual
 def Val.beq : Val → Val → Bool
   | .int k a, .int k' b => k = k' && a = b
   | .bool a, .bool b => a = b
   | .str a, .str b => a = b
-  | .float a, .float b => a == b                       -- IEEE: NaN is not equal to itself
+  | .float a, .float b => f64Eq a b                    -- IEEE: NaN is not equal to itself, +0 == -0
   | .struct a, .struct b => Val.beqList a b
   | .arr a, .arr b => Val.beqList a b
   | .ptr a, .ptr b => a = b
@@ -373,6 +381,19 @@ def Val.uncomparable : Val → Bool
 def Val.anyUncomparable : List Val → Bool
   | [] => false
   | v :: vs => Val.uncomparable v || Val.anyUncomparable vs
+end
+
+mutual
+/-- does the value carry a NaN in a part that `==` looks at?  (Blank fields are skipped by `==`.) -/
+def Val.hasNaN : Val → Bool
+  | .float b => SoftFloat.isNaN SoftFloat.f64 b
+  | .struct fs => Val.anyNaN fs
+  | .arr es => Val.anyNaN es
+  | .iface (some (_, v)) => Val.hasNaN v
+  | _ => false
+def Val.anyNaN : List Val → Bool
+  | [] => false
+  | v :: vs => Val.hasNaN v || Val.anyNaN vs
 end
 
 def natToDigits (n : Nat) : List Nat := (toString n).toUTF8.toList.map (·.toNat)
@@ -441,14 +462,14 @@ def binop (op : BinOp) (a b : Val) : Except Abort Val :=
   | .le, .str x, .str y => .ok (.bool (!lexLt y x))
   | .gt, .str x, .str y => .ok (.bool (lexLt y x))
   | .ge, .str x, .str y => .ok (.bool (!lexLt x y))
-  | .add, .float x, .float y => .ok (.float (x + y))
-  | .sub, .float x, .float y => .ok (.float (x - y))
-  | .mul, .float x, .float y => .ok (.float (x * y))
-  | .quo, .float x, .float y => .ok (.float (x / y))
-  | .lt, .float x, .float y => .ok (.bool (x < y))
-  | .le, .float x, .float y => .ok (.bool (x ≤ y))
-  | .gt, .float x, .float y => .ok (.bool (y < x))
-  | .ge, .float x, .float y => .ok (.bool (y ≤ x))
+  | .add, .float x, .float y => .ok (.float (SoftFloat.add SoftFloat.f64 x y))
+  | .sub, .float x, .float y => .ok (.float (SoftFloat.sub SoftFloat.f64 x y))
+  | .mul, .float x, .float y => .ok (.float (SoftFloat.mul SoftFloat.f64 x y))
+  | .quo, .float x, .float y => .ok (.float (SoftFloat.div SoftFloat.f64 x y))
+  | .lt, .float x, .float y => .ok (.bool (f64Lt x y))
+  | .le, .float x, .float y => .ok (.bool (f64Le x y))
+  | .gt, .float x, .float y => .ok (.bool (f64Lt y x))
+  | .ge, .float x, .float y => .ok (.bool (f64Le y x))
   | .eq, .iface (some (t, v)), .iface (some (t', v')) =>
     if t = t' && Val.uncomparable v then .error (rtPanic "comparing uncomparable type") else .ok (.bool (t = t' && Val.beq v v'))
   | .ne, .iface (some (t, v)), .iface (some (t', v')) =>
@@ -901,7 +922,7 @@ def stepExpr (e : Expr) (env : Env) : M Ret := do
   | .intLit k v => pure (.vals [.int k (wrap k v)])
   | .boolLit b => pure (.vals [.bool b])
   | .strLit s => pure (.vals [.str s])
-  | .floatLit bits => pure (.vals [.float (Float.ofBits (UInt64.ofNat bits))])
+  | .floatLit bits => pure (.vals [.float (bits % 2 ^ 64)])
   | .nil .ptr => pure (.vals [.ptr none])
   | .nil .slice => pure (.vals [.slice none 0 0 0])
   | .nil .iface => pure (.vals [.iface none])
